@@ -64,6 +64,7 @@ TFsDup    == Is("FsDup") /\ Ev.orig \in DOMAIN fs.h /\ FsDup(Ev.f, Ev.orig, THOp
 TFsReload == Is("FsReload") /\ FsReload(Ev.f)
 TFsReloadNow == Is("FsReloadNow") /\ FsReloadNow(Ev.f)
 TFsDestroy == Is("FsDestroy") /\ FsDestroy(Ev.f)
+TFsPartition == Is("FsPartition") /\ FsPartition(Ev.f, Ev.chars, Ev.m1, Ev.m2, Ev.mc)
 TOpen     == Is("Open") /\ Ev.src.t # "f" /\ Open(Ev.i, Ev.src, Bound(Ev.kind, IF Has("k0") THEN Ev.k0 ELSE <<>>, IF Has("k1") THEN Ev.k1 ELSE <<>>), Ev.null)
 TSeek     == Is("Seek") /\ Intact /\ Seek(Ev.i, Ev.k)
 TNext     == Is("Next") /\ Intact          \* buffers handed out stayed intact until this call
@@ -97,7 +98,7 @@ TApi == \/ TJudge \/ TIgnore \/ TInfo \/ TDump \/ TFileStruct \/ TFileHash \/ TM
         \/ TWInit \/ TWAdd \/ TWClose \/ TROpen \/ TRDestroy \/ TRMeta
         \/ TUInit \/ TUAdd \/ TUDestroy \/ TMInit \/ TMAdd \/ TMDestroy
         \/ TOpen \/ TSeek \/ TNext \/ TClose \/ TSrcWrite \/ TMergeTool \/ TBigBlock
-        \/ TFsOpen \/ TFsClose \/ TClock \/ TSetFile \/ TFsInit \/ TFsDup \/ TFsReload \/ TFsReloadNow \/ TFsDestroy
+        \/ TFsOpen \/ TFsClose \/ TClock \/ TSetFile \/ TFsInit \/ TFsDup \/ TFsReload \/ TFsReloadNow \/ TFsDestroy \/ TFsPartition
         \/ TSInit \/ TSAdd \/ TSIter \/ TSWrite \/ TSDestroy \/ TPoolInit \/ TPoolDestroy
 TNext0 == TReset \/ TObs \/ TLeak \/ (TApi /\ UNCHANGED obase)
 
